@@ -275,6 +275,9 @@ func c04Enum(c *sim.Case) {
 func TestC04(t *testing.T) {
 	r := sim.NewRun(t, "C04")
 	defer r.Finish()
+	if r.Shard%2 == 1 {
+		sim.EnableDebugLogging() // odd shards run with every logging scope at debug level: logging must not change what is done
+	}
 	r.Rule = "request-level interleavings of the login flows of 3 browsers (nav / authorize at the provider / deliver callback as separate ops) plus an attacker who replays callbacks verbatim or edited (20 state/code edits: absent, empty, near-miss, duplicated both orders, re-cased name, percent-encoded name, ';' separator, swapped/unknown code, codes carrying percent-encoded '&', '=', '+', space and '%') under its own or another browser's cookie, forges callbacks and plants session ids; client ids/secrets with reserved characters; both stores. The token endpoint is a strict RFC 6749/7636 monitor (no repeated parameter, the code as presented, S256(verifier) = the session's challenge, configured redirect_uri, Basic credentials). Part 'enum-faults': one login whose steps are hit by every single fault position and mode (store, token endpoint, key lookup; before / after / Redis outage), followed by verbatim and re-ordered replays of its callback. Non-trivial = at least two sessions had pending logins at once and an attacker callback hit while a login was pending; distinct = distinct (store, step kinds, edits, verdicts)."
 	r.Assumptions = []string{"with duplicated state parameters of which one matches, either decision is accepted", "client ids never contain ':' (rejected by the loader)"}
 	parts := map[string]func(*sim.Case){"histories": c04Prop, "enum-faults": c04Enum}
